@@ -57,6 +57,23 @@ def programs(tier):
     P["collections_and_consts"] = {
         "main.incn": "const A: int = 1\nconst B: int = A + 1\nconst S: str = \"a\" + \"b\"\nconst L: List[int] = [1, 2, 3]\n\n\ndef main() -> None:\n    d = {\"a\": 1, \"b\": 2}\n    s = {1, 2, 3}\n    xs = [x for x in range(3)]\n    println(len(d) + len(s) + len(xs) + B)\n"
     }
+    # many entries of every kind: an iteration-order dependency anywhere in the compiler needs more than a handful of keys to show
+    n = 60
+    chain = 'const SEG_000: str = "root"\n' + "".join(f'const SEG_{i:03}: str = SEG_{i - 1:03} + "/d{i}"\n' for i in range(1, n))
+    chain += "const NUM_000: int = 1\n" + "".join(f"const NUM_{i:03}: int = NUM_{i - 1:03} + {i}\n" for i in range(1, n))
+    chain += "".join(f'const USE_{i:03}: str = SEG_{i:03} + "!"\n' for i in range(5, n, 6))
+    uses = "".join(f'    println(SEG_{i:03} + "?")\n    println(NUM_{i:03})\n' for i in range(3, n, 7))
+    P["const_chains_60"] = {"main.incn": chain + "\n\ndef main() -> None:\n" + uses}
+    decls = ""
+    for i in range(30):
+        decls += f"trait Tr{i:02}:\n    def m{i:02}(self) -> int: ...\n\n\n"
+        decls += f"@derive(Debug, Eq, Serialize)\nmodel Mo{i:02}:\n    a{i:02}: int\n    b{i:02}: str = \"d{i}\"\n\n\n"
+        decls += f"enum En{i:02}:\n    A{i:02}\n    B{i:02}(int)\n\n\n"
+        decls += f"class Cl{i:02} with Tr{i:02}, Tr{(i + 1) % 30:02}:\n    v: int\n\n    def m{i:02}(self) -> int:\n        return {i}\n\n    def m{(i + 1) % 30:02}(self) -> int:\n        return {i + 1}\n\n\n"
+        decls += f"type Nt{i:02} = newtype int\n\n\n"
+        decls += f"def fn{i:02}(x: int = {i}) -> int:\n    return x + {i}\n\n\n"
+    body = "".join(f"    println(fn{i:02}() + Cl{i:02}(v={i}).m{i:02}() + Mo{i:02}(a{i:02}={i}).a{i:02})\n" for i in range(0, 30, 3))
+    P["many_declarations_30"] = {"main.incn": decls + "def main() -> None:\n" + body}
     for name in ("multifile", "nested_project"):
         root = os.path.join(common.REPO, "examples", "advanced", name)
         files = {}
@@ -196,7 +213,7 @@ def run(tier):
         "evaluations": n_eval,
         "distinct_nontrivial": distinct,
         "rule": f"{len(P)} programs ({sum(1 for f in P.values() if '__light__' in f)} of them the C15 project-generation cases, compared on the generated files under 4 (thorough 16) hash seeds; the others: several rust:: imports, derives/traits/models, diagnostics with several missing fields / methods, 3-level nested multi-file project, private "
-        f"import hint, unformatted source, consts and collections, the repository's multifile examples, a 60-unit pack of the semantic corpus) x {len(cfgs)} configurations "
+        f"import hint, unformatted source, consts and collections, two scaling programs (60-link str and int const chains with uses at every depth; 30 each of traits, derived models, enums, classes with two traits, newtypes, functions with defaults), the repository's multifile examples, a 60-unit pack of the semantic corpus) x {len(cfgs)} configurations "
         "(hash seed x cwd/relative-vs-absolute path x scrubbed/noisy environment); observables: build transcript, every generated .rs/.toml file, --check, --emit-rust, fmt --diff "
         "text; evaluations = (program, configuration, observable) triples compared; non-trivial = (program, observable) pairs identical across all configurations",
         "samples": [{"program": "three_rust_crates", "config": list(cfgs[0])}, {"program": "nested_three_levels", "config": list(cfgs[len(cfgs) // 2])}, {"program": "semantic_corpus_pack", "config": list(cfgs[-1])}],
